@@ -21,13 +21,14 @@ open Interp Spec
 
 section
 variable {R : Type} [Add R] [Sub R] [Mul R] [Neg R] [Zero R] [One R] [Div R] [Consts R]
-  [LE R] [DecidableLE R] [HasSqrt R] [RegConsts R]
+  [LE R] [DecidableLE R] [LT R] [DecidableLT R] [HasSqrt R] [RegConsts R]
 
 /-- `Sym.finish` does what the event list of its queue says, in order -/
 theorem C11_finish_events (s : Sym R) (drawn : List Nat) :
     (Sym.finish s drawn).map Sym.final = (runEvs s.qOps.events (s.toRun drawn)).map RunSt.final :=
   Sym.finish_final s drawn
 
+omit [LE R] [DecidableLE R] [RegConsts R] in
 /-- a conditional block applies its operator iff the classical register, read through the
 mask `c`, currently equals `v`; otherwise nothing happens (no outcome is consumed either way) -/
 theorem C11_cond_run (st : RunSt R) (c v : Nat) (o : MultiOp R) :
@@ -69,7 +70,7 @@ theorem C11_measure_bits (mOp : MeasureOp) (c : CReg) (v qArg cArg : Nat)
 
 section
 variable {R : Type} [Add R] [Sub R] [Mul R] [Neg R] [Zero R] [One R] [Div R] [Consts R]
-  [LE R] [DecidableLE R] [HasSqrt R] [RegConsts R] [ExprFns R] [AngleFns R]
+  [LE R] [DecidableLE R] [LT R] [DecidableLT R] [HasSqrt R] [RegConsts R] [ExprFns R] [AngleFns R]
 
 /-- **every accepted statement appends its own events to the queue**: nothing for a
 declaration, a gate definition or a barrier; `app o` for a gate; `meas q c`; `reset q`;
